@@ -166,6 +166,11 @@ impl MdX for LfI {
     }
 }
 cglue_impl_group!(LfI, LfRoGroup, { MdX });
+
+// a group whose implementor leaves optional traits out: casts to them must be refused - and a
+// refused consuming cast must still release everything the consumed object held
+cglue_trait_group!(LfPartGroup, Lf, { LfRo, MdX });
+cglue_impl_group!(LfI, LfPartGroup, { LfRo });
 impl Drop for LfI {
     fn drop(&mut self) {
         if !self.detached {
@@ -302,6 +307,7 @@ pub enum Obj<'a> {
     MidG(MdGroup<'a, CBox<'a, cglue::trait_group::c_void>, Cx>, u64),
     Leaf(LfBase<'a, CBox<'a, cglue::trait_group::c_void>, Cx>, u64),
     Uw(UwBase<'a, CBox<'a, cglue::trait_group::c_void>, Cx, u64>, u64),
+    Part(LfPartGroup<'a, CBox<'a, cglue::trait_group::c_void>, Cx>, u64),
 }
 
 #[derive(Debug, Clone, Serialize, Deserialize, PartialEq)]
@@ -324,6 +330,10 @@ pub enum Op {
     CastBack(u16, u8),
     /// cast via `into` (final form); the result is used and dropped
     IntoFinal(u16, u8),
+    /// a leaf group object whose implementor enables only one of two optional traits
+    NewPart(u8),
+    /// final cast of such an object: refused (0: the absent trait, 1: a present and the absent one) or granted (2)
+    PartInto(u16, u8),
     IntoMid(u16),
     Finish(u16),
     /// the object consumed holds the last reference to the context; the argument selects the
@@ -430,6 +440,12 @@ fn body_inner(vc: &Ctx, case: &Case) -> Result<St, Fail> {
                     }
                 }
             }
+            Op::NewPart(v) => {
+                if let Some(a) = &arc {
+                    let v = *v as u64 + 1;
+                    pool.push(Obj::Part(group_obj!((LfI::new(v), mk_ctx(a)) as LfPartGroup), v));
+                }
+            }
             Op::NewUw(v) => {
                 if let Some(a) = &arc {
                     let v = *v as u64 + 1;
@@ -479,6 +495,7 @@ fn body_inner(vc: &Ctx, case: &Case) -> Result<St, Fail> {
                 Obj::MidG(o, v) => ensure!(o.md_val() == *v, "C01:ret", "{when}: mid group answers {}", o.md_val()),
                 Obj::Leaf(o, v) => ensure!(o.lf_val() == *v, "C01:ret", "{when}: leaf answers {}", o.lf_val()),
                 Obj::Uw(o, v) => ensure!(o.uw_val() == *v, "C01:ret", "{when}: object answers {}", o.uw_val()),
+                Obj::Part(o, v) => ensure!(o.lf_val() == *v, "C01:ret", "{when}: leaf group answers {}", o.lf_val()),
             },
             Op::MidObj(c) => {
                 let new = match &pool[pick(*c, n)] {
@@ -648,6 +665,25 @@ fn body_inner(vc: &Ctx, case: &Case) -> Result<St, Fail> {
                 };
                 if let Some(o) = back {
                     pool.insert(i, o);
+                }
+            }
+            Op::PartInto(c, which) => {
+                let i = pick(*c, n);
+                if matches!(pool[i], Obj::Part(..)) {
+                    if let Obj::Part(g, v) = pool.remove(i) {
+                        st.transfers += 1;
+                        st.derived += 1;
+                        match which % 3 {
+                            0 => ensure!(into!(g impl MdX).is_none(), "C08:cast", "{when}: final cast to a trait the implementor does not enable was granted"),
+                            1 => ensure!(into!(g impl LfRo + MdX).is_none(), "C08:cast", "{when}: final cast to an enabled and a not enabled trait was granted"),
+                            _ => {
+                                let f = into!(g impl LfRo).ok_or_else(|| Fail::new("C08:cast", format!("{when}: final cast to an enabled trait refused")))?;
+                                ensure!(f.lfro_val() == v && f.lf_val() == v, "C01:ret", "{when}: final form answers wrongly");
+                                drop(f);
+                            }
+                        }
+                        // the consumed object is gone either way: its context clone with it
+                    }
                 }
             }
             Op::IntoFinal(c, which) => {
@@ -848,6 +884,8 @@ fn op_strategy() -> impl Strategy<Value = Op> {
         2 => any::<u16>().prop_map(Op::CloneOf),
         2 => (any::<u16>(), 0u8..3).prop_map(|(i, w)| Op::CastBack(i, w)),
         1 => (any::<u16>(), 0u8..2).prop_map(|(i, w)| Op::IntoFinal(i, w)),
+        1 => any::<u8>().prop_map(Op::NewPart),
+        2 => (any::<u16>(), 0u8..3).prop_map(|(i, w)| Op::PartInto(i, w)),
         2 => any::<u16>().prop_map(Op::IntoMid),
         2 => any::<u16>().prop_map(Op::Finish),
         1 => (0u8..3).prop_map(Op::FinishLast),
